@@ -375,6 +375,15 @@ def run(pid, p, a, seed, t0, scratch):
                 else:
                     unconfirmed += 1
                     notes.append("a campaign failure did not reproduce on replay (not reported): " + msg.strip()[:300])
+                    # kept for triage (never replayed by the driver, never a violation)
+                    try:
+                        ud = os.path.join(OUTDIR, "failures", pid, "unconfirmed")
+                        os.makedirs(ud, exist_ok=True)
+                        shutil.copy(case, os.path.join(ud, os.path.basename(case) + "." + ekey(eng)))
+                        with open(os.path.join(ud, os.path.basename(case) + "." + ekey(eng) + ".log"), "w") as lf:
+                            lf.write(log[-20000:])
+                    except Exception:  # noqa
+                        pass
 
     nt = len(total["hashes"])
     wall = time.time() - t0
